@@ -55,10 +55,9 @@ theorem collapseL_eq (H : Bytes → Bytes) (cs : List Node) (s : Nat) (h : s + c
       rw [if_neg hs, h2]; simp
 
 theorem collapse_full (H : Bytes → Bytes) (cs : List Node) (hlen : cs.length = 17) :
-    collapse H (.full cs) = .branch ((cs.take 16).map (refOf H)) (match cs[16]?.getD .nil with | .value b => b | _ => []) := by
+    collapse H (.full cs) = .branch ((cs.take 16).map (refOf H)) (valueBytes (cs[16]?.getD .nil)) := by
   have h0 : 0 + cs.length = 17 := by omega
   simp only [collapse, collapseL_eq H cs 0 h0, Nat.sub_zero, List.getD_eq_getElem?_getD]
-  rfl
 
 theorem mapM_option_eq_some {α β : Type} (f : α → Option β) (g : α → β) (l : List α)
     (h : ∀ x ∈ l, f x = some (g x)) : l.mapM f = some (l.map g) := by
@@ -213,7 +212,7 @@ theorem expand_collapse_aux (H : Bytes → Bytes) (st : List (Bytes × CNode)) (
       conv => rhs; rw [hsplit]
       congr 2
       rcases hslots 16 (by omega) with h | h
-      · rw [h]; simp
+      · rw [h]; simp [valueBytes]
       · simp only [if_true] at h
         obtain ⟨b, hb, hbne⟩ := h
         rw [hb]
@@ -221,7 +220,7 @@ theorem expand_collapse_aux (H : Bytes → Bytes) (st : List (Bytes × CNode)) (
           cases b with
           | nil => exact absurd rfl hbne
           | cons _ _ => rfl
-        simp [this]
+        simp [this, valueBytes]
     refine ⟨hA, fun f hf => ?_⟩
     have hh : 1 ≤ height (.full cs) := by simp [height]
     obtain ⟨f', rfl⟩ : ∃ f', f = f' + 1 := ⟨f - 1, by omega⟩
